@@ -1,7 +1,138 @@
-(* C09 (work in progress) *)
+(* C09  Unregistering says goodbye for exactly what was announced, then goes quiet.
+   Only statements here; every proof is `exact <lemma>`.
+
+   Model: Model/RegistryDaemon.v (unregister = exec_command_unregister after the caller lower-cased
+   the name, goodbye_msg / goodbyes_of = unregister_service over all interfaces and both
+   families, unregister_resend, cleanup, register_resend).  Specification of the goodbye the
+   property asks for: Model/RegistrySpec.v, spec_goodbyes st resolved announced_only s
+   (resolved = under the names most recently announced, announced_only = only where announced). *)
 From Coq Require Import List NArith Bool.
-From Mdns Require Import ParamsRegistry RegistryParamsPinned.
+From Mdns Require Import Bytes Rec ParamsRegistry Names WireOut Registry RegistryDaemon RegistrySpec
+     RegistryParamsPinned RegistryProofs RegistryDaemonProofs RegistryWitnesses RegistryWitnessProofs.
+Import ListNotations.
 Open Scope N_scope.
-Theorem C09_constants : goodbye_repeat_v4 = 120 /\ goodbye_repeat_v6 = 120.
-Proof. exact goodbye_repeat_pinned. Qed.
+
+(* regenerated from the Rust on every run: the repeat comes 120 ms later (both families), TTLs *)
+Theorem C09_constants :
+  goodbye_repeat_v4 = 120 /\ goodbye_repeat_v6 = 120 /\ dns_host_ttl = 120 /\ dns_other_ttl = 4500 /\ class_in = 1.
+Proof. exact c09_constants. Qed.
+
+(* STATUS: OK exactly when the (lower-cased) full name is a key of the registered services -
+   every state, every name - and exactly one reply is given. *)
+Theorem C09_unregister_status : forall st k ch now,
+  In (OReply ch true) (snd (unregister st k ch now)) <-> aget k (d_svcs st) <> None.
+Proof. exact unregister_status. Qed.
+
+Theorem C09_unregister_replies_once : forall st k ch now,
+  replies_of (snd (unregister st k ch now))
+  = [(ch, match aget k (d_svcs st) with Some _ => true | None => false end)].
+Proof. exact unregister_reply_once. Qed.
+
+(* FRAME: every other service, every registry and the interface table are untouched; the
+   service itself is gone. *)
+Theorem C09_unregister_frame : forall st k ch now,
+  let st' := fst (unregister st k ch now) in
+  (forall k', k' <> k -> aget k' (d_svcs st') = aget k' (d_svcs st)) /\
+  d_regs st' = d_regs st /\ d_intfs st' = d_intfs st /\
+  (NoDup (keys (d_svcs st)) -> aget k (d_svcs st') = None).
+Proof. exact unregister_frame. Qed.
+
+(* GOODBYE CONTENT.  What is sent on OK: per interface and family that has an address of the
+   service in its subnet, one response with PTR, subtype PTR, SRV, TXT and those addresses ... *)
+Theorem C09_goodbye_packets : forall st k ch now s,
+  aget k (d_svcs st) = Some s ->
+  unregister st k ch now =
+  (mkD (d_intfs st) (d_regs st) (adel k (d_svcs st))
+       (d_retrans st ++ map (resend_of now) (goodbyes_of s (d_intfs st))) (d_mon st) (d_dead st) (d_mif4 st),
+   map send_of (goodbyes_of s (d_intfs st)) ++ [OReply ch true]).
+Proof. exact unregister_found. Qed.
+
+Theorem C09_goodbye_is_spec_of_the_code : forall st s,
+  map (fun g : N * bool * omsg => let '(i, v4, m) := g in (i, v4, Mcast, m)) (goodbyes_of s (d_intfs st))
+  = spec_goodbyes st false false s.
+Proof. exact goodbyes_are_spec_code. Qed.
+
+(* ... every record of it with TTL 0 ... *)
+Theorem C09_goodbye_ttl_zero : forall s addrs, is_goodbye (goodbye_msg s addrs) = true.
+Proof. exact goodbye_all_ttl0. Qed.
+
+(* ... and for a service that was not renamed and is announced wherever it has addresses this IS
+   the goodbye the property asks for (names most recently announced, only where announced). *)
+Theorem C09_goodbye_matches_property : forall st s,
+  no_renames st s -> announced_where_addressed st s ->
+  spec_goodbyes st true true s = spec_goodbyes st false false s.
+Proof. exact goodbyes_match_property. Qed.
+
+(* THE REPEAT: the identical message is queued once for now + 120 and sent again unchanged. *)
+Theorem C09_goodbye_repeat_scheduled : forall st k ch now s,
+  aget k (d_svcs st) = Some s ->
+  d_retrans (fst (unregister st k ch now))
+  = d_retrans st ++ map (fun g : N * bool * omsg => let '(i, v4, m) := g in (now + 120, UnregisterResend m i v4))
+                        (goodbyes_of s (d_intfs st)).
+Proof. exact unregister_schedules_repeat. Qed.
+
+Theorem C09_goodbye_repeat_same_packet : forall st m i v4,
+  unregister_resend st m i v4 = [] \/ unregister_resend st m i v4 = [OResend i v4 m].
+Proof. exact unregister_resend_same_packet. Qed.
+
+(* SHUTDOWN: goodbyes once for every registered service, nothing left to repeat, the thread ends. *)
+Theorem C09_shutdown_goodbyes_once : forall st,
+  let (st', os) := cleanup st in
+  d_svcs st' = [] /\ d_retrans st' = [] /\ d_dead st' = true /\
+  os = flat_map (fun ks => map send_of (goodbyes_of (snd ks) (d_intfs st))) (d_svcs st) ++ [OExit].
+Proof. exact cleanup_spec. Qed.
+
+(* QUIET AFTERWARDS: the pending second announcement of an unregistered service finds nothing,
+   and a query on an interface where no remaining service is announced is not answered. *)
+Theorem C09_no_reannouncement : forall st full i now js,
+  aget (lower full) (d_svcs st) = None -> register_resend st full i now js = (st, [], js).
+Proof. exact register_resend_absent. Qed.
+
+Theorem C09_no_answer_without_announced_service : forall st g now,
+  none_announced st (g_if g) -> snd (handle_query st g now) = [].
+Proof. exact handle_query_silent. Qed.
+
+(* The property text is FALSE of the code in three decidable classes (witnesses run on the real
+   daemon; chk_C09 codes): 11 goodbye under pre-rename names; 12 goodbye where the service was
+   still probing; 14 the repeated IPv4 goodbye leaves on the interface of the last IPv4 send. *)
+Theorem C09_goodbye_uses_old_names_refuted : only_known 11 (self9 w_renamed_ifs w_renamed_its).
+Proof. exact w_renamed_known9. Qed.
+Theorem C09_goodbye_while_probing_refuted : only_known 12 (self9 w_probing_goodbye_ifs w_probing_goodbye_its).
+Proof. exact w_probing_goodbye_known9. Qed.
+Theorem C09_goodbye_repeat_wrong_interface_refuted : only_known 14 (self9 w_resend_if_ifs w_resend_if_its).
+Proof. exact w_resend_if_known9. Qed.
+
+(* History level, full statement (validated on every generated history by running chk_C09 on the
+   model's own observation, NOT proved as a theorem):
+     forall ifs its, no VFail in chk_C09 (d_init ifs) its (model_obs (d_init ifs) its)
+   and that a response never carries a record of an unregistered service (chk_C09 code 3) for all
+   histories.  Proved: the single-step statements above for every state. *)
+
+(* Non-vacuity: register, two announcements, unregister under a differently-cased name (OK,
+   goodbye, repeat 120 ms later), a second unregister (NotFound) and a PTR question (no answer):
+   chk_C09 accepts the model's run. *)
+Example C09_unregister_run :
+  self9 w_unregister_ifs w_unregister_its = [] /\ self7 w_unregister_ifs w_unregister_its = [] /\
+  busy (timeline w_unregister_ifs w_unregister_its) =
+  [ (1000145, true, false, false); (1000395, true, false, false); (1000645, true, false, false);
+    (1000895, false, true, false); (1001895, false, true, false);
+    (1002500, false, false, true); (1002620, false, false, true) ].
+Proof. exact w_unregister_accepted. Qed.
+
 Print Assumptions C09_constants.
+Print Assumptions C09_unregister_status.
+Print Assumptions C09_unregister_replies_once.
+Print Assumptions C09_unregister_frame.
+Print Assumptions C09_goodbye_packets.
+Print Assumptions C09_goodbye_is_spec_of_the_code.
+Print Assumptions C09_goodbye_ttl_zero.
+Print Assumptions C09_goodbye_matches_property.
+Print Assumptions C09_goodbye_repeat_scheduled.
+Print Assumptions C09_goodbye_repeat_same_packet.
+Print Assumptions C09_shutdown_goodbyes_once.
+Print Assumptions C09_no_reannouncement.
+Print Assumptions C09_no_answer_without_announced_service.
+Print Assumptions C09_goodbye_uses_old_names_refuted.
+Print Assumptions C09_goodbye_while_probing_refuted.
+Print Assumptions C09_goodbye_repeat_wrong_interface_refuted.
+Print Assumptions C09_unregister_run.
